@@ -88,10 +88,18 @@ func checkC07(r *mon.Run) {
 			if !bytes.Equal(mb.Bytes(), j.stream) {
 				r.Violation("C07|marshal-differs"+sfx, "Marshal() differs from the input stream", replay)
 			}
-			if err := db2.Unmarshal(bytes.NewBuffer(append([]byte(nil), j.stream...))); err != nil {
+			ub := bytes.NewBuffer(append([]byte(nil), j.stream...))
+			if err := db2.Unmarshal(ub); err != nil {
 				r.Violation("C07|unmarshal-error"+sfx, err.Error(), replay)
 			} else if canonLib(db2) != canonRef(ref) {
 				r.Violation("C07|unmarshal-differs"+sfx, "Unmarshal result differs from the reference decode", replay)
+			} else {
+				// the caller reuses its buffer: the decoded database must not change
+				ub.Reset()
+				ub.Write(bytes.Repeat([]byte{0xEE}, len(j.stream)+32))
+				if canonLib(db2) != canonRef(ref) || !bytes.Equal(db2.Bytes(), j.stream) {
+					r.Violation("C07|unmarshal-aliases-callers-buffer"+sfx, "after the caller reused its buffer the decoded database changed", replay)
+				}
 			}
 		}); p != "" {
 			r.Violation("C07|marshal-panic", p, replay)
